@@ -33,16 +33,16 @@ type root struct {
 // extWritesArgs: external (non-module) callees and the argument indices (receiver = 0) they write
 // through. One line of reason each (DESIGN Appendix C).
 var extWritesArgs = map[string][]int{
-	"(*math/big.Int).SetBytes":  {0}, // writes its receiver only
-	"(*math/big.Int).SetInt64":  {0},
-	"(*math/big.Int).Mod":       {0},
-	"(*math/big.Int).Add":       {0},
-	"(*math/big.Int).Sub":       {0},
-	"(*math/big.Int).FillBytes": {1}, // fills the buffer argument
-	"crypto/rand.Read":          {0}, // fills its argument
-	"io.ReadFull":               {1},
-	"(encoding/binary.littleEndian).PutUint64": {1},
-	"(encoding/binary.bigEndian).PutUint64":    {1},
+	"(*math/big.Int).SetBytes":                            {0}, // writes its receiver only
+	"(*math/big.Int).SetInt64":                            {0},
+	"(*math/big.Int).Mod":                                 {0},
+	"(*math/big.Int).Add":                                 {0},
+	"(*math/big.Int).Sub":                                 {0},
+	"(*math/big.Int).FillBytes":                           {1}, // fills the buffer argument
+	"crypto/rand.Read":                                    {0}, // fills its argument
+	"io.ReadFull":                                         {1},
+	"(encoding/binary.littleEndian).PutUint64":            {1},
+	"(encoding/binary.bigEndian).PutUint64":               {1},
 	"(*golang.org/x/crypto/chacha20.Cipher).XORKeyStream": {0, 1},
 	"(*golang.org/x/crypto/chacha20.Cipher).SetCounter":   {0},
 }
@@ -76,9 +76,9 @@ func hasAnyPrefix(s string, ps []string) bool {
 
 type effAnalysis struct {
 	visiting map[ssa.Value]bool
-	w     *World
-	fresh map[*ssa.Function]map[int]bool // memo: result idx returns fresh
-	memo  map[string][]effectRec
+	w        *World
+	fresh    map[*ssa.Function]map[int]bool // memo: result idx returns fresh
+	memo     map[string][]effectRec
 }
 
 type effectRec struct {
@@ -199,7 +199,7 @@ func (ea *effAnalysis) roots(v ssa.Value, fn *ssa.Function, depth int) []root {
 func (ea *effAnalysis) storedInto(addr ssa.Value, fn *ssa.Function, depth int) []root {
 	path := render(addr)
 	var out []root
-	instrs(fn, func(ins ssa.Instruction) {
+	instrsFlat(fn, func(ins ssa.Instruction) {
 		if st, ok := ins.(*ssa.Store); ok && render(st.Addr) == path {
 			out = append(out, ea.roots(st.Val, fn, depth+1)...)
 		}
@@ -299,7 +299,7 @@ func (ea *effAnalysis) sharedWrites(fn *ssa.Function, depth int, stack map[*ssa.
 			}
 		}
 	}
-	instrs(fn, func(ins ssa.Instruction) {
+	instrsFlat(fn, func(ins ssa.Instruction) {
 		switch x := ins.(type) {
 		case *ssa.Store:
 			addRoots(ins, "store to "+render(x.Addr), x.Addr)
